@@ -110,6 +110,10 @@ def run(ctx):
         singles.append("import qmluic.QtWidgets\nQWidget {\n    QLineEdit { id: srcS }\n    QCheckBox { id: srcB }\n    QSpinBox { id: srcI }\n    QVBoxLayout {\n        %s {\n            %s\n        }\n    }\n}\n" % (cls, b))
     for b in ("text: srcS.text", "separator: srcB.checked", "separator: true", "checkable: srcB.checked", "onTriggered: srcS.clear()"):
         singles.append("import qmluic.QtWidgets\nQWidget {\n    QLineEdit { id: srcS }\n    QCheckBox { id: srcB }\n    QAction {\n        id: act\n        %s\n    }\n}\n" % b)
+    # object ids that are ordinary QML identifiers but words of other languages (C++ keywords, Qt macros, Rust / Python keywords): whatever a mode says about them, every mode says
+    for ident in ("union", "register", "auto", "signals", "slots", "emit", "goto", "and", "not", "template", "namespace", "fn", "lambda", "match", "self", "ui", "root_", "ui_"):
+        singles.append("import qmluic.QtWidgets\nQWidget {\n    QLineEdit { id: srcS }\n    QLabel { id: %s; text: \"static\" }\n}\n" % ident)
+        singles.append("import qmluic.QtWidgets\nQWidget {\n    QLineEdit { id: srcS }\n    QLabel { id: %s; text: srcS.text }\n}\n" % ident)
     # the same documents with something that draws a WARNING (a versioned import, a return type on a handler function): a warning changes nothing else
     singles += [x.replace("import qmluic.QtWidgets\n", "import qmluic.QtWidgets 6.2\n", 1) for x in list(singles)]
     singles.append("import qmluic.QtWidgets\nQWidget {\n    QLineEdit { id: srcS }\n    QPushButton {\n        onClicked: function(): void { srcS.clear() }\n    }\n}\n")
